@@ -1,6 +1,7 @@
 package main
 
 import (
+	"time"
 	"strconv"
 	"fmt"
 	"go/ast"
@@ -164,6 +165,7 @@ func (u *Universe) verifyContract(c *Contract, variant map[string]string) (res *
 		o := types.NewVar(fd.Pos(), pkg.Types, cname, t)
 		st.vars[o] = v
 	}
+	x.started = time.Now()
 	// parameters modelled as fixed-length sequences
 	x.seqLens = map[string]int{}
 	for pn, ln := range c.SeqLens {
@@ -241,6 +243,12 @@ func (u *Universe) verifyContract(c *Contract, variant map[string]string) (res *
 	x.entry = st.fork()
 	// vacuity guard: the precondition is satisfiable
 	x.Obls = append(x.Obls, &Obl{Name: "cover." + name + ".pre", Kind: "cover", PC: x.withGlobals(st.pc), Goal: FalseT, Cover: true, Func: name, Where: c.Where})
+	if c.Prefix {
+		x.verifyPrefix(st, fd, name)
+		res.Obls = x.finishObls()
+		res.Trivial = x.trivial
+		return res
+	}
 	outs := x.execBlock(st, fd.Body.List)
 	nret := 0
 	for _, o := range outs {
@@ -796,4 +804,75 @@ func alphaAssumed(o *Obl) bool {
 		}
 	}
 	return false
+}
+
+// verifyPrefix: statements are executed in order until one is outside the supported subset; the check
+// clauses are proved on every state that reaches that point (or a return before it).
+func (x *Exec) verifyPrefix(st *State, fd *ast.FuncDecl, name string) {
+	cur := []*State{st}
+	runChecks := func(s *State) {
+		ue := x.localEnv(s)
+		for i, ck := range x.C.Checks {
+			func() {
+				defer func() {
+					if r := recover(); r != nil {
+						if ue2, ok := r.(*UnsupportedError); ok && strings.Contains(ue2.Msg, "unknown identifier") {
+							return
+						}
+						panic(r)
+					}
+				}()
+				ue.where = ck.Line
+				t := ue.boolTerm(ue.expr(ck.Expr))
+				x.addObl("assert", fmt.Sprintf("check.%d", i+1), s, t, ck.Line)
+				s.assume(t)
+			}()
+		}
+	}
+	cutAt := ""
+	for _, s := range fd.Body.List {
+		var next []*State
+		stop := false
+		for _, c := range cur {
+			var outs []outcome
+			func() {
+				defer func() {
+					if r := recover(); r != nil {
+						if ue, ok := r.(*UnsupportedError); ok {
+							stop = true
+							cutAt = x.pos(s) + ": " + ue.Msg
+							return
+						}
+						panic(r)
+					}
+				}()
+				outs = x.execStmt(c.fork(), s)
+			}()
+			if stop {
+				break
+			}
+			for _, o := range outs {
+				if o.kind == oNormal {
+					next = append(next, o.st)
+				}
+				// returns and panics before the cut point are not the subject of a prefix contract
+			}
+		}
+		if stop {
+			break
+		}
+		cur = next
+		if len(cur) > 1 {
+			if m := mergeStates(s0(st, cur), cur); m != nil {
+				cur = []*State{m}
+			}
+		}
+	}
+	if cutAt == "" {
+		cutAt = "end of the body"
+	}
+	x.trusted["prefix contract of "+name+": only the statements before "+cutAt+" are analysed; goroutine launches before that point are skipped and the scalar variables they mention are unknown afterwards"] = true
+	for _, s := range cur {
+		runChecks(s)
+	}
 }
